@@ -176,12 +176,13 @@ Print Assumptions c08_emitted_from_buffer.
      (2) if the chain ends with an empty retransmission buffer, then everything is delivered: the receiver has
          consumed the FIN, what it buffered for the reader is exactly the written bytes, and a read of it reports
          EOF;
-     (3) otherwise, if the timer retransmits at least one frame (tick_sends), another round is possible.
+     (3) otherwise, if the sender's window is not zero (windowSize >= 1), another round is possible: the timer
+         retransmits at least the oldest unacknowledged frame (rtoCounter >= 0 is part of the proved invariant).
    Hence, once the network delivers what each timeout retransmits, the stream completes within at most
    (number of unacknowledged frames) timeouts, whatever happened before.
-   What is missing for the unqualified statement (hence _partial): (a) tick_sends is a premise — it holds whenever
-   windowSize >= 1 and rtoCounter >= 0 (c08_tick_sends_when_window_open), but windowSize = uint16(cwndSize) >= 1
-   is not proved (float reasoning; it is false if cwndSize ever reaches 65536); (b) acknowledgements that
+   What is missing for the unqualified statement (hence _partial): (a) windowSize >= 1 at the end of
+   the chain is a premise: windowSize = uint16(cwndSize) >= 1 is not proved (float reasoning; it is false if
+   cwndSize ever reaches 65536, where the conversion wraps to 0); (b) acknowledgements that
    acknowledge nothing new are not among the lossy steps: more than 100 of them close the tube (docs/C08.md item
    4), so liveness genuinely fails under an adversarial stream of duplicate acknowledgements; (c) rounds are
    whole timeout periods — finer interleavings of ticks, deliveries and acknowledgements inside a period are
@@ -195,7 +196,7 @@ Theorem c08_liveness_fair_lossless_rto_rounds_partial :
   lossy_star m all (start m writes) y0 -> rounds m all k y0 yk ->
   (k <= List.length all)%nat /\
   (s_frames (y_snd yk) = [] -> complete writes [] yk) /\
-  (s_frames (y_snd yk) <> [] -> tick_sends (y_snd yk) -> exists y', round m all yk y').
+  (s_frames (y_snd yk) <> [] -> 1 <= s_wsize (y_snd yk) -> exists y', round m all yk y').
 Proof. intros m writes Hm all Hs y0 k yk. apply (liveness_from_start m Hm writes Hs). Qed.
 Print Assumptions c08_liveness_fair_lossless_rto_rounds_partial.
 
